@@ -316,7 +316,7 @@ pub fn eqr<A: EqR + ?Sized>(a: &A, b: &A) -> bool { a.eqr(b) }
 impl EqR for f64 { fn eqr(&self, o: &f64) -> bool {
     if self == o || (self.is_nan() && o.is_nan()) { return true; }
     let m = if self.abs() > o.abs() { self.abs() } else { o.abs() };
-    (self - o).abs() <= 1e-9 * (if m > 1.0 { m } else { 1.0 }) } }
+    (self - o).abs() <= 1e-6 * (if m > 1.0 { m } else { 1.0 }) } }
 impl EqR for f32 { fn eqr(&self, o: &f32) -> bool { (*self as f64).eqr(&(*o as f64)) } }
 macro_rules! eqi { ($($t:ty)+) => { $(impl EqR for $t { fn eqr(&self, o: &$t) -> bool { self == o } })+ } }
 eqi!(u8 u16 u32 u64 usize i8 i16 i32 i64 isize bool);
